@@ -194,6 +194,21 @@ Proof.
 Qed.
 Print Assumptions C02_coordNum_pairlist_runs.
 
+(* the same for the pair lists of selfCoordNum and group2CenterOnly: at every rebuild step, in particular the first step
+   of every run of a session, the value is the full value for the current coordinates whatever the list held *)
+Theorem C02_pairlist_runs_selfCoordNum_center : forall freq r0 r0v en ed tol cell,
+  (forall st rel (frames : list (list (V3 * V3))) k fr, nth_error frames k = Some fr -> ((rel + Z.of_nat k) mod freq = 0)%Z ->
+     nth_error (fst (pl_run_pts Rops freq r0 r0v en ed tol cell st rel frames)) k = Some (pts_full Rops r0 r0v en ed tol cell fr)) /\
+  (forall st (runs : list (list (list (V3 * V3)))) j rn fr, nth_error runs j = Some rn -> nth_error rn 0 = Some fr ->
+     exists vs, nth_error (pl_session_pts Rops freq r0 r0v en ed tol cell st runs) j = Some vs /\
+                nth_error vs 0 = Some (pts_full Rops r0 r0v en ed tol cell fr)) /\
+  (forall g, pts_full Rops r0 None en ed tol cell (self_pts g) = cv_selfcoordnum Rops r0 en ed tol cell g) /\
+  (forall g1 g2, pts_full Rops r0 r0v en ed tol cell (center_pairs Rops g1 g2) = cv_coordnum_center Rops r0 r0v en ed tol cell g1 g2).
+Proof.
+  intros. split; [apply pl_run_pts_rebuild | split; [apply pl_session_pts_first | split; [intros; apply pts_full_self | intros; apply pts_full_center]]].
+Qed.
+Print Assumptions C02_pairlist_runs_selfCoordNum_center.
+
 (* non-vacuity: a unit quaternion; an optimal quaternion exists for the one-pair list of C02_example_decomposition;
    a rotation about z *)
 Example C02_example_fit : qnorm2 (0, 0, 0, 1) = 1 /\ is_optimal (1, 0, 0, 0) [((1, 0, 0), (1, 0, 0))] /\
